@@ -209,8 +209,10 @@
         D65 (found by this model, repaired in /repo 703c414): Element::attributes tested the defaults against
         attributes_specified(), which leaves the namespace declarations out, so a namespace declaration that is written
         on the element and has a default (<!ATTLIST a xmlns:p CDATA "u"> with <a xmlns:p="v"/>) was listed twice.  The model
-        follows the repaired code ([add_defaults] also looks at namespace_attributes()); the shape is inside the theorem
-        now ([dom_view_nsdefault]).
+        follows the repaired code; the shape is inside the theorem now ([dom_view_nsdefault]).
+        D67 (repaired in /repo bf629dc): a namespace declaration supplied by an ATTLIST default value is appended by
+        namespace_attributes() ([add_ns_defaults]) and attributes() skips every definition that is a namespace declaration
+        ([add_defaults]); the model follows the code, the rows are those of the specification ([dom_view_nsdefault67]).
     Not proved: renderings with carriage returns in white space for (m) (they are covered by (n) on the side of
     the model, which does not go through [infoset_of_string]); (n) for strings whose entity values hold markup.
     This is covered by checks/C01.py, which evaluates wf (render d c) and
@@ -582,6 +584,24 @@ Example dom_view_nsdefault : forall c doc, Info.from_raw (render ex_nsdefault c)
 Proof.
   intros c doc H. assert (Hk : DomViewC01.Known_C01 ex_nsdefault = false) by (vm_compute; reflexivity).
   apply (C01_dom_view_is_denote_partial ex_nsdefault c doc); [vm_compute; reflexivity|vm_compute; reflexivity|vm_compute; reflexivity|exact Hk|exact H].
+Qed.
+
+(* a namespace declaration supplied by the default only (D67, repaired in bf629dc: it comes from namespace_attributes() now),
+   next to a #FIXED default namespace, a #IMPLIED one and an ordinary default *)
+Definition ex_nsdefault67 : adoc :=
+  {| a_version := None; a_encoding := None; a_standalone := None; a_misc1 := [];
+     a_doctype := Some {| ad_name := [97]%N; ad_pub := None; ad_sys := None;
+       ad_subset := Some [ADAttlist [97]%N [([120;109;108;110;115;58;112]%N, ATCData, DfValue false [IText [117]%N]);
+                                            ([120;109;108;110;115]%N, ATCData, DfValue true [IText [118]%N]);
+                                            ([120;109;108;110;115;58;113]%N, ATCData, DfImplied);
+                                            ([121]%N, ATCData, DfValue false [IText [49]%N])]] |};
+     a_misc2 := []; a_root := AElem [97]%N [([122]%N, [IText [50]%N])] []; a_misc3 := [] |}.
+
+Example dom_view_nsdefault67 : forall c doc, Info.from_raw (render ex_nsdefault67 c) = Info.OOk ([], doc) ->
+  DomView.dom_view true doc = Infoset.denote ex_nsdefault67 /\ DomView.dom_view false doc = Infoset.denote ex_nsdefault67.
+Proof.
+  intros c doc H. assert (Hk : DomViewC01.Known_C01 ex_nsdefault67 = false) by (vm_compute; reflexivity).
+  apply (C01_dom_view_is_denote_partial ex_nsdefault67 c doc); [vm_compute; reflexivity|vm_compute; reflexivity|vm_compute; reflexivity|exact Hk|exact H].
 Qed.
 
 Example dom_view_nodoctype_nonvacuous :
